@@ -614,7 +614,26 @@ func main() {
 	st := newCutStats()
 	mixes := []string{"catalog", "kv", "mesh", "admin"}
 	shrunkSigs := map[string]int{}
-	for i := 0; i < nw; i++ {
+	for i := -1; i < nw; i++ {
+		if i == -1 {
+			// the fixed peering history (see corpusWide)
+			cmds := corpusWide()
+			h := runWide(2000, "corpus", cmds, st, false)
+			for _, f := range h.Failures {
+				key := sigKey(f)
+				sc, sk := shrink(cmds, f.Cut, key)
+				sdr := runDonor(sc, map[int]bool{sk: true}, nil)
+				sf := f
+				for _, x := range checkCut(sc, sk, sdr, nil) {
+					if sigKey(x) == key {
+						sf = x
+					}
+				}
+				h.Shrunk = append(h.Shrunk, ShrunkReplay{Signature: f.Signature, Cmds: sc, Cut: sk, Failure: sf})
+			}
+			emit(h)
+			continue
+		}
 		mix := mixes[i%len(mixes)]
 		ln := 6 + rng.Intn(30)
 		cmds := genWide(rng.Int63(), mix, ln)
